@@ -601,6 +601,12 @@ func runSess(r *common.Run, reqs []reqSpec, sched []string, class string) {
 		}
 		sr.act(a)
 	}
+	sr.conclude(class)
+}
+
+// conclude runs the epilogue and records line, case and verdicts.
+func (sr *sessRun) conclude(class string) {
+	r := sr.r
 	var obs string
 	if len(sr.problems) > 0 {
 		r.Hist["problem"]++
